@@ -46,7 +46,11 @@ def one_file(R, I, label, P, paths, pin_doc, slot, base, dec):
             if 'HashMismatch' in p.cls:
                 R.obligation(f'{label}: HashMismatch only if a digest is pinned and differs', p.pc, z3.And(MHasHash(pin_doc, sl), z3.And([d[2] != MSha(pin_doc, sl) for d in digests])), group=label + '/reject-justified')
             if 'MetaMissing' in p.cls:
-                R.obligation(f'{label}: MetaMissing only if the file is not listed', p.pc, z3.Not(MPresent(pin_doc, sl)), group=label + '/reject-justified')
+                alts = [z3.Not(MPresent(pin_doc, sl))]
+                if label == 'load_snapshot':
+                    # 3.3.3: the new snapshot dropped the targets.json entry that the stored, still verifiable snapshot had
+                    alts.append(z3.And(P.old_present, P.old_parses, V(P.root, P.old), MPresent(P.old, IDV(1)), z3.Not(MPresent(P.served, IDV(1)))))
+                R.obligation(f'{label}: MetaMissing only if the file is not listed (or the new snapshot dropped targets.json)', p.pc, z3.Or(alts), group=label + '/reject-justified')
             if 'MaxSizeExceeded' in p.cls:
                 R.obligation(f'{label}: MaxSizeExceeded only if more than the applicable bound was served', p.pc,
                              z3.If(MHasLen(pin_doc, sl), z3.UGT(sum_lens(p), MLen(pin_doc, sl)), z3.UGT(sum_lens(p), P.maxsz)), group=label + '/reject-justified')
